@@ -275,6 +275,8 @@ func focused(prop string, thorough bool) []focus {
 			{[]string{"dep:diamond", "edit:src/a.txt", "code:helper", "build:leaf", "build:mid", "build:top"}, 6 + d},
 			// a build started from a subdirectory that holds files named like the declared outputs
 			{[]string{"delete:gen/g.txt", "edit:src/a.txt", "build:top(process started in misc/)", "build:mid"}, 4 + d},
+			// one loaded Project: a body fails, the cause (not an input) is repaired, the build is repeated
+			{[]string{"global:G", "edit:dir/x.txt", "session:build:top(mid's body fails),cause repaired,build:top", "build:top"}, 4 + d},
 			// builds interrupted by the death of the process inside a body
 			{[]string{"delete:gen/g.txt", "edit:src/a.txt", "code:helper", "interrupt:build:gen(dies between gen's two outputs)", "interrupt:build:mid(dies in mid's body)", "build:mid", "build:top"}, 5 + d},
 			// edits between values that compare equal but can be told apart by the function
@@ -370,13 +372,13 @@ func alphabet(prop string, thorough bool) []Op {
 			return pick(all...)
 		}
 		return pick("edit:src/a.txt", "edit:dir/x.txt", "const:K", "global:G", "flag:mode", "comment:BUILD.dawn", "comment+docstring:lib.dawn", "comment:pkg/BUILD.dawn",
-			"edit:misc/n.txt", "target:pkg:other", "delete:out/mid", "fail:leaf", "build:top", "build:mid", "build:leaf", "gc:full", "dry:top")
+			"edit:misc/n.txt", "target:pkg:other", "delete:out/mid", "fail:leaf", "build:top", "build:mid", "build:leaf", "gc:full", "dry:top", "dep:diamond")
 	case "C13":
 		if thorough {
 			return pick(all...)
 		}
 		return pick("edit:src/a.txt", "edit:pkg/b.txt", "const:K", "edge:top->leaf", "fail:gen", "delete:gen/g.txt", "always:gen", "dep:missing",
-			"build:top", "build:mid", "dry:top", "dry:mid")
+			"build:top", "build:mid", "dry:top", "dry:mid", "target:pkg:other")
 	case "C14":
 		if thorough {
 			return pick(all...)
@@ -774,7 +776,7 @@ func main() {
 	}
 	ops := alphabet(*fProp, r.Thorough())
 	depth := 5
-	if (len(ops) <= 12 || *fProp == "C14") && *fProp != "C18" {
+	if (len(ops) <= 13 || *fProp == "C14") && *fProp != "C18" {
 		depth = 6
 	}
 	if r.Thorough() {
